@@ -101,6 +101,11 @@ BAD_PAGES = "(Some [[((-9), (-9), (-9))]])"
 
 
 def term(c, o):
+    _SEEN[json.dumps(c, sort_keys=True)] = (c, o)
+    return _term(c, o)
+
+
+def _term(c, o):
     codes = IdCodes(o)
     ns = o.get("ns") or {}
     ticks = sc.write_ticks(c)
@@ -167,13 +172,13 @@ def ent(i, refs=None, deleted=False, props=None):
     return e
 
 
-def q(starts, pred="*", inverse=False, datasets=None, limits=(0,), at=None):
+def q(starts, pred="*", inverse=False, datasets=None, limits=(0,), at=None, exact=False):
     op = {"op": "related", "starts": [U(s) for s in starts], "pred": pred if pred == "*" else U(pred), "inverse": inverse,
           "limits": list(limits)}
     if datasets:
         op["datasets"] = list(datasets)
     if at is not None:
-        op["at"] = {"after_op": at}
+        op["at"] = {"after_op": at, "exact": bool(exact)}
     return op
 
 
@@ -325,13 +330,13 @@ def gen_case(rng, nw, nq, full=False):
         qs.append(q(starts[:rng.range(2, 4)], rng.choice(["*"] + PREDS), rng.chance(1, 2), rng.choice(SCOPES),
                     [rng.choice([1, 2, 3])] if rng.chance(3, 4) else [1, 2]))
         qs.append(q([rng.choice(IDS)], rng.choice(["*"] + PREDS), rng.chance(1, 2), rng.choice(SCOPES[:4]),
-                    [rng.choice([0, 1, 2])], at=rng.choice(widx)))
+                    [rng.choice([0, 1, 2])], at=rng.choice(widx), exact=rng.chance(1, 2)))
     return {"datasets": DSN, "ops": ops + qs}
 
 
 def gen(rng, tier):
     if tier == "quick":
-        return [gen_case(rng, rng.range(2, 7), 30) for _ in range(40)]
+        return [gen_case(rng, rng.range(2, 7), 40) for _ in range(120)]
     if tier == "search":
         return [gen_case(rng, rng.range(2, 8), 40) for _ in range(150)]
     cases = [gen_case(rng, rng.range(2, 6), 0, full=True) for _ in range(40)]
@@ -356,29 +361,33 @@ def _hist(c):
     return [op for op in c["ops"] if op["op"] in ("batch", "txn")]
 
 
+_SEEN = {}      # case JSON -> (case, obs), filled by term()
+_UNEXPLAINED = None
+
+
+def _explain_all():
+    """one Coq run over every case seen so far: which cases have a query whose observation violates the spec
+    AND is not what the pinned model (all known deviations) predicts"""
+    global _UNEXPLAINED
+    keys = list(_SEEN)
+    terms = [_term(*_SEEN[k]) for k in keys]
+    ev = vlib.coq_evaluate_cases(ID + "x", CHECK_MODULE, CASE_TYPE, terms, fn="unexplained_all", shard=SHARD)
+    bad = set(ev[0])
+    _UNEXPLAINED = {k: (i in bad) for i, k in enumerate(keys)}
+
+
 def attribute(c, o):
-    """finding id whose trigger is present in the history (coarse: used only to label spec failures)"""
-    ents = []
-    for op in _hist(c):
-        for s in ([op] if op["op"] == "batch" else op["sets"]):
-            ents.append((s["ds"], s["ents"]))
-    multi = False
-    for _, es in ents:
-        for e in es:
-            tg = {}
-            for p, v in e["refs"].items():
-                for t in (v if isinstance(v, list) else [v]):
-                    tg.setdefault(t, set()).add(p)
-            if any(len(ps) > 1 for ps in tg.values()):
-                multi = True
+    """a known finding id iff every spec failure of this case is exactly what the pinned model predicts, else None"""
+    k = json.dumps(c, sort_keys=True)
+    if _UNEXPLAINED is None or k not in _UNEXPLAINED:
+        _SEEN.setdefault(k, (c, o))
+        _explain_all()
+    if _UNEXPLAINED.get(k, True):
+        return None
     for op in c["ops"]:
         if op["op"] == "related" and any(d not in c["datasets"] for d in op.get("datasets", [])):
             return "F03b"
-    if multi:
-        return "F03a"
-    if len(set(d for d, _ in ents)) > 1:
-        return "F03d"
-    return "F03c"
+    return "F03a"
 
 
 def size(c):
